@@ -6,6 +6,7 @@ CONSTANTS
   CliIds = {1,2}
   SrvIds = {1,2}
   TrackObs = TRUE
+  TrackDeps = FALSE
   Dev = "none"
   SetupPlan <- Persist_SetupPlan
   RegPlan <- Persist_RegPlan
@@ -26,6 +27,7 @@ CONSTANTS
   MutPlan <- Persist_MutPlan
   Splice = FALSE
   Reloads = TRUE
+  ExtFail = FALSE
   MaxFree = 12
 INVARIANT Agreement
 INVARIANT ClientAcceptsOnlyMatched
